@@ -25,7 +25,7 @@ func TestMain(m *testing.M) {
 		Assumptions: []string{
 			"rows whose unique key contains a NULL are not asserted either way (the property does not say whether NULLs collide)",
 			"a CHECK whose value depends on how a NULL compares (or on arithmetic over NULL) may be accepted or rejected; rows are asserted only where the reference evaluator says false; the engine's own SELECT … WHERE NOT (check) must always be empty",
-			"WHERE clauses of UPDATE/DELETE are limited to forms whose matching rows do not depend on NULL ordering; inside a transaction that already wrote the table they use key / non-indexed columns only (in-transaction secondary-index scans are C11 known findings K11/K12)",
+			"WHERE clauses of UPDATE/DELETE are limited to forms whose matching rows do not depend on NULL ordering; inside a transaction that already wrote the table they use key / non-indexed columns only (in-transaction secondary-index scans are C11 known findings K11/K12); for the same reason primary key columns are never part of a secondary index",
 			"columns referenced by a CHECK are not renamed (the meaning of the stored CHECK text afterwards is undocumented); FLOAT columns are not indexed (-0.0 key, C11/C15 known finding K6); JSON cells are compared by NULL-ness only",
 			"a rejected statement that the reference considers valid is counted (label rejected-unexpected-*) but is not a violation of this property; explicit values for AUTO_INCREMENT keys and multi-row UPDATEs whose outcome depends on the row order may be accepted or rejected",
 			"effects of accepted statements are compared with a reference interpreter (UPSERT replaces the row, ON CONFLICT DO UPDATE starts from the stored row); a difference is reported although the property text itself only speaks about constraints and aborted transactions",
